@@ -182,3 +182,10 @@ pub mod mania;
 
 /// Types used in and around this crate.
 pub mod model;
+
+/// Verification hooks: crate-internal types re-exported for the conformance
+/// harness. Compiled out unless `--cfg rosu_pp_verif` is given.
+#[cfg(rosu_pp_verif)]
+pub mod verif {
+    pub use crate::util::{limited_queue::LimitedQueue, strains_vec::StrainsVec};
+}
